@@ -5,11 +5,13 @@ import (
 	"time"
 
 	"verif/engine/gx"
+	"verif/engine/rigs/consrig"
 	"verif/engine/rigs/prodrig"
 )
 
 func TestMain(m *testing.M)   { gx.Main(m) }
 func TestWorker(t *testing.T) { gx.WorkerMain(t) }
 func TestCheck(t *testing.T) {
-	gx.RunCheck(t, "C18", prodrig.Scenarios("C18"), 50*time.Second, 14*time.Minute, prodrig.Assumptions)
+	scs := append(prodrig.Scenarios("C18"), consrig.Scenarios("C18")...)
+	gx.RunCheck(t, "C18", scs, 50*time.Second, 14*time.Minute, append(prodrig.Assumptions, consrig.Assumptions...))
 }
